@@ -1017,6 +1017,55 @@ def build_tie(run: Run):
     return ok
 
 
+def customised_call_probe(run: Run):
+    """A call made with customised algorithm settings must not change what a later DEFAULT call does (no state kept at class /
+    module level): default call -> customised call -> the same default call again, on a loaded model; first and third results must be
+    bit-identical, and so must the same default call on a second, freshly loaded model object."""
+    from leaspy.algo import AlgorithmSettings
+    from leaspy.models import BaseModel
+    wd = tmpdir()
+    kind = "logistic"
+    path = base_model_path(kind, wd)
+    df = subset(cohort(kind, 2), kind, [0, 3, 4])
+    customs = [("scipy_minimize", dict(use_jacobian=False, custom_scipy_minimize_params=dict(method="Powell", options=dict(maxiter=1, xtol=1e-1, ftol=1e-1)))),
+               ("scipy_minimize", dict(use_jacobian=True, custom_scipy_minimize_params=dict(method="BFGS", options=dict(maxiter=1)))),
+               ("mean_posterior", dict(n_iter=6, annealing=dict(do_annealing=True, n_plateau=2, initial_temperature=3.0))),
+               ("mode_posterior", dict(n_iter=5, sampler_ind="Gibbs", sampler_ind_params=dict(acceptation_history_length=2, mean_acceptation_rate_target_bounds=(0.1, 0.5), adaptive_std_factor=0.3)))]
+    defaults = [("scipy_minimize", {}), ("mean_posterior", dict(n_iter=8))]
+
+    def call(model, algo, kw, seed=11):
+        with quiet():
+            st = AlgorithmSettings(algo, seed=seed, progress_bar=False, **copy.deepcopy(kw))
+            ip = model.personalize(df.copy(), algorithm_settings=st)
+        return canon(ip.to_dataframe().sort_index())
+    for dalgo, dkw in defaults:
+        for calgo, ckw in customs:
+            desc = dict(kind=kind, default_call=dict(algo=dalgo, **dkw), customised_call=dict(algo=calgo, **ckw))
+            run.case(("customised-then-default", dalgo, calgo, json.dumps(ckw, sort_keys=True, default=str)), nontrivial=True)
+            try:
+                with quiet():
+                    m = BaseModel.load(path)
+                first = call(m, dalgo, dkw)
+                try:
+                    call(m, calgo, ckw, seed=3)
+                except Exception as e:      # a customised configuration the library refuses is not the subject here
+                    run.count("customised_call_probe", f"customised call refused: {type(e).__name__}")
+                third = call(m, dalgo, dkw)
+                with quiet():
+                    m2 = BaseModel.load(path)
+                fresh = call(m2, dalgo, dkw)
+            except Exception as e:
+                run.fail(f"customised-call-probe:raises:{type(e).__name__}", f"{type(e).__name__}: {e}", desc)
+                continue
+            run.count("customised_call_probe", "compared")
+            if first != third or first != fresh:
+                run.fail(f"history:default-call-changed-by-an-earlier-customised-call:{dalgo}",
+                         f"the default {dalgo} personalisation gives a different answer after a customised {calgo} call was made "
+                         f"({'on the same model object' if first != third else 'on a freshly loaded model, same process'}): "
+                         f"{first_diff(first, third if first != third else fresh)}", desc)
+    shutil.rmtree(wd, ignore_errors=True)
+
+
 def main(run: Run):
     from harness.common import use_impl
     t0 = time.time()
@@ -1053,6 +1102,13 @@ def main(run: Run):
             use_impl()
             trace_tie(run, thorough)
             run.log("trace correspondence done")
+        try:
+            use_impl()
+            customised_call_probe(run)
+            run.log("customised-call probe done")
+        except Exception as e:  # noqa
+            import traceback
+            run.broken("customised-call-probe", f"{type(e).__name__}: {e}\n{traceback.format_exc()[-1200:]}", kind="broken-correspondence")
     finally:
         th.join()
         run.log("sequence oracle done")
